@@ -185,9 +185,25 @@ def gen_vdi(rng):
 def gen_iso(rng):
     p = {'blocks': interesting_size(rng, 32),
          'bsize': rng.choice((512, 1024, 2048, 2048, 4096, 32768)),
-         'ident': weighted(rng, [('CD001', 6), ('NSR02', 1), ('NSR03', 1)]),
+         'ident': weighted(rng, [('CD001', 12), ('NSR02', 2), ('NSR03', 2),
+                                 ('BEA01', 2), ('TEA01', 1), ('BOOT2', 1)]),
          'total': rng.choice((34 * KI, 34 * KI + 1, 36 * KI, 100000)),
          'fill': rfill(rng), 'sys_fill': rng.choice(('zero', 'zero', 'inc'))}
+    if rng.random() < 0.3:
+        # the rest of the volume recognition sequence
+        if p['ident'] == 'BEA01' or rng.random() < 0.3:
+            tail = [[0, rng.choice(('NSR02', 'NSR03'))], [0, 'TEA01']]
+            if p['ident'] != 'BEA01':
+                tail.insert(0, [0, 'BEA01'])
+        else:
+            tail = []
+        head = [[rng.choice((0, 2, 2, 3)), 'CD001']
+                for _ in range(rng.choice((0, 0, 1, 2, 5)))]
+        if p['ident'] == 'CD001':
+            head.append([255, 'CD001'])
+        p['vrs'] = head + tail
+        p['total'] = max(p['total'], 34 * KI + 2048 * len(p['vrs']) +
+                         rng.choice((0, 1, 2048)))
     if rng.random() < 0.15:
         p['blocks_be'] = rng.randrange(1 << 32)
         p['bsize_be'] = rng.randrange(1 << 16)
